@@ -251,6 +251,8 @@ def run(ctx):
             t = check_truncation(ctx, rng, name, l, chosen, reqs, meta)
             if t is not None and chosen is not None and t.n_vertices <= 600:
                 check_truncation(ctx, rng, name + "/again", zoo.rebuild(t), rng.choice(t.n_vertices, size=max(1, t.n_vertices // 5), replace=False), reqs, meta, depth=1)
+    core.history_check(ctx, "import numpy as np\nfrom koala import example_graphs as eg, voronization as vz, graph_utils as gu, quasicrystals as qc, phase_diagrams as pdg, hamiltonian as ham\nfrom koala.flux_finder import flux_finder as ff\n\ndef _canon(l):\n    parts = [l.vertices.positions.ravel(), l.edges.indices.ravel().astype(float), l.edges.crossing.ravel().astype(float)]\n    return np.concatenate(parts)\ndef _plaq(l):\n    out = []\n    for p in l.plaquettes:\n        out += [float(len(p.edges))] + [float(x) for x in p.edges] + [float(x) for x in p.directions] + [float(x) for x in p.vertices] + [float(x) for x in p.center]\n    return np.array(out)\n_pts = np.random.default_rng(123).uniform(size=(14, 2))\n", ["_canon(gu.make_dual(vz.generate_lattice(_pts)))", "_canon(gu.vertices_to_polygon(vz.generate_lattice(_pts), np.array([0, 5, 9])))",
+                                      "_canon(gu.vertices_to_polygon(eg.honeycomb_lattice(3)))"], label="dual / truncation call")
     outs = core.Driver().run_parallel(reqs)
     for (name, op, l, res, rows), o in zip(meta, outs):
         brk = lambda what, **kw: ctx.corr_break(f"{name}: {what}", dict(case=name, op=op, lattice=zoo.lat_to_json(l), **kw))
